@@ -317,7 +317,7 @@ class _RecvProxy:
     async def callback(self, message: Any, raise_err: bool = False) -> None:
         sc = self.__dict__["_sc"]
         d = getattr(message, "verif_d", None)
-        OWNER.set(d)
+        prev = OWNER.set(d)
         if d is not None:
             sc.tok_delivery[sc.deliveries[d]["tok"]] = d
         sc.trace.add("cb_enter", d)
@@ -328,6 +328,10 @@ class _RecvProxy:
             raise
         finally:
             sc.trace.add("cb_exit", d)
+            try:
+                OWNER.reset(prev)  # (an in-place broker runs this callback inside the sender's asyncio task)
+            except ValueError:
+                pass
 
 
 class MonInMemoryBroker(InMemoryBroker):
@@ -452,7 +456,7 @@ class MonReceiver(Receiver):
             d = getattr(getattr(message, "data", None), "verif_d", None)
         if d is None and type(message) is bytes and not message and sc.__dict__.get("empty_ds"):
             d = sc.empty_ds.pop(0)  # empty frames are handed over in the order they were delivered
-        OWNER.set(d)
+        prev = OWNER.set(d)
         if d is not None:
             sc.tok_delivery[sc.deliveries[d]["tok"]] = d
         sc.trace.add("cb_enter", d)
@@ -463,6 +467,10 @@ class MonReceiver(Receiver):
             raise
         finally:
             sc.trace.add("cb_exit", d)
+            try:
+                OWNER.reset(prev)
+            except ValueError:
+                pass
 
 
 # ------------------------------------------------------------------------------------
@@ -873,6 +881,15 @@ async def _run_beh(sc: Scenario, tok: str, args: Any, kwargs: Any, depvals: Any,
                  echo=echo, deps=safe_json(depvals))
     if pt is not None:
         await pt.set_progress("STARTED", meta={"tok": tok})
+    if beh.get("spawn") and ctx is not None:
+        # the function sends another task from its body (a workflow step): that message is a message of its own
+        ch = beh["spawn"]
+        sc.beh[ch["tok"]] = ch.get("beh", {"dur": [], "out": "ok"})
+        lab = dict(ch.get("labels", {}))
+        lab["own"] = ch["tok"]
+        sc.trace.add("spawn", d, child=ch["tok"])
+        await AsyncKicker(ch["task"], ctx.broker, lab).with_task_id(ch["tok"]).kiq(ch["tok"])
+        sc.trace.add("spawn_done", d, child=ch["tok"])
     try:
         for step in beh.get("dur", []):
             if step == "y":
@@ -1047,7 +1064,14 @@ def build_payload(sc: Scenario, broker: AsyncBroker, m: Dict[str, Any], tok: str
         # a message from a producer that does not send labels_types (hand-built / older client)
         from taskiq.message import TaskiqMessage
 
-        raw = TaskiqMessage(task_id=m.get("task_id", tok), task_name=tname, labels=labels, labels_types=None,
+        ltypes = None
+        if m["raw_labels"] == "native":
+            # ... or one that sends the type table with *native* JSON values (a client in another language)
+            from taskiq.labels import LabelType
+
+            labels.update({"n_i": 3, "n_f": 1.5, "n_t": True, "n_b": False})
+            ltypes = {"n_i": LabelType.INT.value, "n_f": LabelType.FLOAT.value, "n_t": LabelType.BOOL.value, "n_b": LabelType.BOOL.value}
+        raw = TaskiqMessage(task_id=m.get("task_id", tok), task_name=tname, labels=labels, labels_types=ltypes,
                             args=[tok] + list(m.get("args", [])), kwargs=dict(m.get("kwargs", {})))
         return broker.formatter.dumps(raw).message
     # task_id differs from the token only for re-deliveries (at-least-once brokers, ids re-used by the caller)
